@@ -82,7 +82,7 @@ def run (ws : List String) : String :=
   | "settle" :: rest =>
     match parseSettle rest with
     | some i =>
-      match buildSettlement i.asks i.bids i.lookup with
+      match buildSettlementChecked i.asks i.bids i.lookup with
       | .ok s => showSettlement s
       | .error e => e.toString
     | none => "bad-op"
